@@ -132,6 +132,37 @@ def _loc_text(seq, root):
     return model_extract(root, bl, loc.strand.name)
 
 
+class RevCompLocated(Case):
+    """reverse_complement of a sequence that records a (multi-block) location keeps that record consistent with the
+    characters; slices of it too."""
+    props = ("C03",)
+    proved = False
+    name = "bounded: reverse_complement keeps the recorded location consistent (compound locations)"
+    func = SEQ + ".reverse_complement"
+    scope = "sequences placed by every location with <= 3 blocks (gaps 0-2) on a sequence of length 8, both strands"
+    call = "(s.reverse_complement(), s.reverse_complement().reverse_complement())"
+    ensures = {
+        "characters": lambda i, r: str(r[0]) == "".join(COMP[c] for c in reversed(i.text)),
+        "recorded-location-matches-characters": lambda i, r: _loc_text(r[0], i.root) == str(r[0]),
+        "twice-is-identity": lambda i, r: str(r[1]) == i.text and _loc_text(r[1], i.root) == i.text,
+    }
+
+    def inputs(self, S):
+        root = "ACGTTGCA"
+        alpha = S.cls(ALPHA)["NT_STRICT"]
+        rootseq = S.new(SEQ, root, alpha, id="root", type="chromosome")
+        blocks = [tuple(b) for b in S.const("blocks")]
+        loc = loc_on(S, blocks, S.const("strand"), rootseq)
+        text = model_extract(root, blocks, S.const("strand"))
+        s = S.new(SEQ, text, alpha, type="piece", parent=S.new(PARENT, location=loc))
+        return NS(s=s, text=text, root=root)
+
+    def domain(self, tier):
+        for lay in layouts(8, 3, empties=False):
+            for strand in ("PLUS", "MINUS"):
+                yield dict(blocks=lay, strand=strand)
+
+
 class TwoLevelLift(Case):
     props = ("C04",)
     proved = False
@@ -226,4 +257,4 @@ class NoAncestor(Case):
             yield dict(kind=k)
 
 
-CASES = [Extract(), Split(), SliceAppend(), TwoLevelLift(), NoAncestor()]
+CASES = [Extract(), Split(), SliceAppend(), RevCompLocated(), TwoLevelLift(), NoAncestor()]
